@@ -91,6 +91,9 @@ func (pass *FlattenDisjunctions) flattenDisjunction(schemas ast.Schemas, disjunc
 
 	// references being unfolded: a disjunction can refer to itself (`D: "a" | D`)
 	unfolding := make(map[string]struct{})
+	// references already unfolded: a disjunction reached a second time (`D2: D1 | D1 | bool`) brings
+	// the branches it brought the first time. Unfolding it again doubles the work at every level.
+	unfolded := make(map[string]struct{})
 
 	var flatten func(prefix string, branches []ast.Type)
 	flatten = func(prefix string, branches []ast.Type) {
@@ -115,6 +118,10 @@ func (pass *FlattenDisjunctions) flattenDisjunction(schemas ast.Schemas, disjunc
 				continue
 			}
 
+			if _, done := unfolded[branch.Ref.String()]; done {
+				continue
+			}
+
 			// the referred disjunction is flattened as well, whether or not the
 			// pass already went through the object it belongs to
 			// branches of another object: copy them, later passes rewrite types in place
@@ -124,6 +131,7 @@ func (pass *FlattenDisjunctions) flattenDisjunction(schemas ast.Schemas, disjunc
 			}
 
 			unfolding[branch.Ref.String()] = struct{}{}
+			unfolded[branch.Ref.String()] = struct{}{}
 			flatten(fmt.Sprintf("%sinner_%d_", prefix, i), innerBranches)
 			delete(unfolding, branch.Ref.String())
 		}
